@@ -209,7 +209,7 @@ def run(ctx):
     if judged == 0:
         raise vlib.Infra("the all-processors-blocked situation was never set up (processor count of the harness process differs from %d?)" % procs)
     ctx.extra["all_processors_blocked_windows"] = judged
-    scen = progress_scenarios(ctx, 400 if thorough else 100, 1)
+    scen = progress_scenarios(ctx, 1000 if thorough else 100, 1)
     for i in range(0, len(scen), 100):
         core.execute_and_validate(ctx, "C04", scen[i:i + 100], par=6)
     ctx.rule = ("pool scenarios: (pool kind, scenario, trial) with the lost-wake-up window constructed through hook gates; progress "
